@@ -37,6 +37,49 @@ FEATURES = [
     "from (read_csv \"a.csv\") | take 1", "from (read_parquet \"a.parquet\") | take 1", "from (read_json \"a.json\") | take 1",
     "from t | select {x = $1}",
 ]
+# feature programs over the generator's schema (t1(id,k,a,b,s) t2(id,k,a,c,s) t3(k,d,e)): besides the dialect
+# grammars, the sqlite / generic output of these is prepared on the pinned SQLite (the real engine of sql.sqlite)
+FEATURES_DB = [
+    "from t1 | select {id, k} | append (from t2 | select {id, k})",
+    "from t1 | select {id, k} | append (from t2 | select {id, k}) | group {id, k} (take 1)",
+    "from t1 | select {id, k} | append (from t2 | select {id, k}) | group {id, k} (take 1) | sort id",
+    "from t1 | select {id, k} | remove (from t2 | select {id, k})",
+    "from t1 | select {id, k} | intersect (from t2 | select {id, k})",
+    "from t1 | select {id, k} | group {id, k} (take 1) | remove (from t2 | select {id, k})",
+    "from t1 | select {id, k} | group {id, k} (take 1) | intersect (from t2 | select {id, k})",
+    "from t1 | select {k} | group {k} (take 1)",
+    "from t1 | group {k} (take 1)",
+    "from t1 | group {k} (sort a | take 2)",
+    "from t1 | group {k, a} (sort {-b} | take 1) | sort k | take 3",
+    "from t1 | sort id | take 2..",
+    "from t1 | sort id | take 3..5",
+    "from t1 | sort id | take 2 | take 1",
+    "from t1 | take 3 | sort {-id} | take 2..3",
+    "from [{n = 1}] | loop (filter n < 4 | select n = n + 1)",
+    "from t1 | select {x = (a | as int), y = (b | as float), z = (s | as text)}",
+    "from t1 | derive {x = a ** 2, y = a % 3, z = a // 2, w = a / 2, n = -a, p = +a}",
+    "from t1 | derive {lo = text.lower s, l = text.length s, u = text.upper s, tr = text.trim s, lt = text.ltrim s, rt = text.rtrim s}",
+    "from t1 | derive {c = text.contains \"x\" s, sw = text.starts_with \"x\" s, ew = text.ends_with \"x\" s, r = text.replace \"a\" \"b\" s, e = text.extract 1 2 s}",
+    "from t1 | derive {x = math.round 2 b, y = math.pow a 2, z = math.abs a, f = math.floor b, c = math.ceil b}",
+    "from t1 | aggregate {c = count this, su = sum a, mi = min a, ma = max a, av = average a, cd = count_distinct a}",
+    "from t1 | group k (aggregate {c = count this, su = sum a}) | filter c > 1 | sort {-su} | take 2",
+    "from t1 | sort a | derive {l = lag 1 a, ld = lead 1 a, f = first a, la = last a, r = rank a, rd = rank_dense a, rn = row_number this}",
+    "from t1 | window rolling:3 (sort id | derive {m = average a}) | window rows:-1..1 (sort id | derive {sm = sum a})",
+    "from t1 | group k (sort id | window expanding:true (derive {run = sum a}))",
+    "from t1 | select {b2 = a == null, c = a != null, d = a ?? 0, e = (a | in 1..5), f = case [a > 1 => \"x\", true => \"y\"]}",
+    "from t1 | join side:left t2 (==id) | join side:right t3 (t1.k == t3.k) | select {t1.id, t2.c, t3.d}",
+    "from t1 | join side:full t2 (==id) | select {t1.id, t2.c}",
+    "from x = t1 | join y = t1 (x.id == y.k) | select {x.id, y.a} | sort {x.id} | take 3",
+    "let top = (from t1 | sort id | take 3)\nfrom top | join t2 (==id) | select {top.id, t2.c}",
+    "from t1 | select {id, k} | filter id > 1 | take 10 | filter k > 0 | take 2..3",
+    "from t1 | select !{s, b}",
+    "from t1 | select {t1.*} | take 1",
+    "from t1 | derive {d = @2020-01-01, ts = @2020-01-01T10:00:00} | select {id, d, ts}",
+    "from t1 | filter (s | in [\"x\", \"y\"]) | select {id}",
+    "from_text format:csv \"\"\"\na,b\n1,2\n\"\"\" | select {a, b}",
+    "from t1 | select {id, k} | append (from t2 | select {id, k}) | aggregate {n = count this}",
+    "from t1 | select {id, k} | append (from t2 | select {id, k} | take 1) | sort id | take 3",
+]
 PARSER_OF = {"glaredb": "postgres"}
 # constructs of the real dialect that sqlparser 0.60's grammar for it does not accept (trusted-base gaps, not findings)
 PARSER_LIMITATIONS = [
@@ -86,7 +129,7 @@ def _shard(seed, shard, n_rel, corpus_srcs):
            "prepared_sqlite": 0, "engine_unsupported": 0, "panics": 0, "per_dialect": {}, "nontrivial": set(), "sql_features": {}}
     db = grel.gen_db(rng, "normal")
     w.db_open("d", grel.db_stmts(db))
-    work = [("corpus", s, None) for s in corpus_srcs]
+    work = [("corpus", s, None) for s in corpus_srcs] + [("featdb", s, None) for s in FEATURES_DB[shard::core.NCPU]]
     for i in range(n_rel):
         prof = ["core", "project", "window", "sort"][i % 4]
         try:
@@ -119,11 +162,11 @@ def _shard(seed, shard, n_rel, corpus_srcs):
                 # raw SQL fragments are the user's, in whatever dialect they chose: not judged
                 obs["skipped_sstring"] = obs.get("skipped_sstring", 0) + 1
                 continue
-            out, st = judge_sql(w, sql, dialect, SCHEMA if origin == "grel" else None, do_bind=True)
+            out, st = judge_sql(w, sql, dialect, SCHEMA if origin in ("grel", "featdb") else None, do_bind=True)
             for k, v in st.items():
                 obs[k] = obs.get(k, 0) + v
             pd["parsed"] += st.get("parsed", 0)
-            if origin == "grel" and dialect in ("sqlite", "generic"):
+            if origin in ("grel", "featdb") and dialect in ("sqlite", "generic"):
                 e = w.call({"op": "db_exec", "name": "d", "sql": sql, "prepare_only": True})
                 if "sqlite_error" in e:
                     cls = relcheck.classify_sqlite_error(e["sqlite_error"], dialect)
@@ -136,7 +179,7 @@ def _shard(seed, shard, n_rel, corpus_srcs):
                     obs["prepared_sqlite"] += 1
             for (sym, det) in out:
                 pd["violations"] += 1
-                wit = {"src": src, "dialect": dialect, "prog": prog}
+                wit = {"src": src, "dialect": dialect, "prog": prog, "schema": origin == "featdb"}
                 shape = dialect
                 dl = "any" if sym.startswith("bind:") else dialect      # scoping is dialect-agnostic
                 if prog is not None:
@@ -223,12 +266,14 @@ def replay(case):
     db = grel.gen_db(rng, "normal")
     w.db_open("d", grel.db_stmts(db))
     dialect = case["dialect"]
+    if "src" not in case and "prog" in case:
+        case = dict(case, src=case.get("prql") or grel.pp_program(case["prog"]))       # a relational-check witness
     r = w.call({"op": "compile", "src": case["src"], "target": "sql." + dialect})
     out = []
     if "sql" in r:
         has_sstring = bool(re.search(r"\bs\"|\bs'", case["src"]))
-        o, _ = judge_sql(w, r["sql"], dialect, SCHEMA if case.get("prog") else None, not has_sstring)
-        if case.get("prog") and dialect in ("sqlite", "generic"):
+        o, _ = judge_sql(w, r["sql"], dialect, SCHEMA if (case.get("prog") or case.get("schema")) else None, not has_sstring)
+        if (case.get("prog") or case.get("schema")) and dialect in ("sqlite", "generic"):
             e = w.call({"op": "db_exec", "name": "d", "sql": r["sql"], "prepare_only": True})
             if "sqlite_error" in e:
                 cls = relcheck.classify_sqlite_error(e["sqlite_error"], dialect)
